@@ -121,6 +121,10 @@ func (p *c11) workload(seed int64, idx int, b *bomb) (wl, follow []*hist.Op, ori
  "sub":{"type":"object","properties":{"owner":{"default":"x"},"a":{"default":2},"g1":{"type":"string","format":"boom"},"g2":{"type":"string","format":"boom"}}},
  "list":{"type":"array","items":{"type":"object","required":["k"],"properties":{"k":{"default":0},"b":{"default":true},"h":{"type":"string","format":"boom"}}}}}}`),
 		Inst: []byte(`{"f1":"ab","f2":"cd","sub":{"g1":"ef","g2":"gh"},"list":[{"h":"ij"},{"h":"kl"}]}`)})
+	// ... and under a root schema which carries an "id" (its own resolution scope; no $ref)
+	wl = append(wl, &hist.Op{Kind: []string{"against", "schema-recycled"}[(idx/2)%2], Tag: fmt.Sprintf("T%dQ", idx*1000+402), Carrier: "float64", Formats: b.reg,
+		Schema: []byte(`{"id":"http://example.com/c11.json","type":"object","required":["f"],"properties":{"f":{"type":"string","format":"boom"},"g":{"type":"string","format":"boom"},"n":{"type":"integer","maximum":3}}}`),
+		Inst:   []byte(`{"f":"ab","g":"cd","n":5}`)})
 	follow = hist.Gen(r, 60, idx*1000+500, hist.Options{})
 	follow = append(follow, hist.Gen(r, 1, idx*1000+900, hist.Options{SpecDocs: hist.SpecDocs(r.Fork(), 2), SpecEvery: 1})...)
 	derived, from := derivedFollowUps(wl, idx*1000+950, b.reg)
